@@ -726,5 +726,77 @@ theorem refDec_monitor_accepts_model (v : JVal) : refDecMonitor (modelRefDec v) 
       | ok _ => rfl
     simp [refDecMonitor, hc, hw, sameJ_refl]
 
+/-! ## what a retried request carries -/
+
+def modelRetry (rs : List (Bytes × JVal)) (state : Bytes) : RetryObs :=
+  { sentResp := lookup retry_InputResponses_name (retryParams [] rs state),
+    sentState := lookup retry_RequestState_name (retryParams [] rs state),
+    back := match decodeRetry (retryParams [] rs state) with | .ok r => some r | .error _ => none }
+
+theorem containsPair (ks : List (Bytes × RespKind)) (x : Bytes × RespKind) (h : x ∈ ks) : ks.contains x = true := by
+  simp [h]
+
+theorem retry_monitor_accepts_model (rs : List (Bytes × JVal)) (state : Bytes) :
+    retryMonitor rs state (modelRetry rs state) = none := by
+  obtain ⟨e1, e2⟩ := L.retry_members [] rs state rfl rfl
+  have r1 : respIntact rs (modelRetry rs state) = true := by
+    simp only [respIntact, modelRetry, e1]
+    by_cases hr : rs = [] <;> simp [hr, sameJ_refl]
+  have r2 : stateIntact state (modelRetry rs state) = true := by
+    simp only [stateIntact, modelRetry, e2]
+    by_cases hs : state = [] <;> simp [hs]
+  have r3 : backAlike rs state (modelRetry rs state) = true := by
+    unfold backAlike
+    by_cases hd : allDiscriminated rs = true
+    · have hk : ∀ p ∈ rs, respKindOf p.2 = .ok (kindD p.2) := by
+        intro p hp
+        have := List.all_eq_true.mp hd p hp
+        unfold kindD
+        cases h : respKindOf p.2 <;> simp_all
+      have hb := (L.retry_roundtrip [] rs state kindD rfl rfl hk).2.2
+      simp only [modelRetry, hb, hd, Bool.not_true, Bool.false_or, beq_self_eq_true, List.length_map, Bool.true_and]
+      rw [List.all_eq_true]
+      intro p hp
+      exact containsPair _ _ (List.mem_map.mpr ⟨p, hp, rfl⟩)
+    · simp [hd]
+  simp [retryMonitor, r1, r2, r3]
+
+/-! ## `ToolAnnotations` -/
+
+def modelAnn (compat : Bool) (a : ToolAnn) : AnnObs :=
+  { written := some (encodeAnn compat a),
+    back := match decodeAnn (encodeAnn compat a) with | .ok b => some b | .error _ => none }
+
+theorem ann_monitor_accepts_model (compat : Bool) (a : ToolAnn) : annMonitor compat a (modelAnn compat a) = none := by
+  have hb : (modelAnn compat a).back = some a := by simp [modelAnn, tool_annotations_roundtrip]
+  cases compat
+  · obtain ⟨kvs, he, h1, h2⟩ := tool_annotations_hints_present a
+    have hp : hintsPresent (modelAnn false a).written = true := by
+      simp only [modelAnn, he, hintsPresent, h1, h2]; rfl
+    simp [annMonitor, hb, hp]
+  · simp [annMonitor, hb]
+
+/-! ## capabilities clones -/
+
+theorem aliasCount_zero (v : CSlots) (h : Heap) (hw : wfSlots v h) (x : JVal) : aliasCount v h x = 0 := by
+  unfold aliasCount
+  have h1 : (cloneV v h).1.filter (showsInOriginal v h x) = [] := by
+    rw [List.filter_eq_nil_iff]
+    intro s hs
+    cases s with
+    | none => simp [showsInOriginal]
+    | some a => simp [showsInOriginal, clone_no_alias v h hw a x hs]
+  have h2 : v.filter (showsInClone v h x) = [] := by
+    rw [List.filter_eq_nil_iff]
+    intro s hs
+    cases s with
+    | none => simp [showsInClone]
+    | some a => simp [showsInClone, clone_no_alias_rev v h hw a x hs]
+  rw [h1, h2]; rfl
+
+theorem clone_monitor_accepts_model (v : CSlots) (h : Heap) (hw : wfSlots v h) (x : JVal) :
+    cloneMonitor (modelClone v h x) = none := by
+  simp [cloneMonitor, modelClone, clone_same_encoding v h hw, aliasCount_zero v h hw x]
+
 end Mon
 end Wire
